@@ -123,6 +123,8 @@ type Goroutine struct {
 	phaseVal uint64
 	selDirs  []bool
 	yielded  bool
+	pendObj  *Obj
+	pendWrite bool
 }
 
 type endKind int
@@ -624,6 +626,9 @@ func (st *State) load(p Pointer, t types.Type) Value {
 	}
 	a := make(Agg, l.n)
 	if p.sidx == nil {
+		if p.off+l.n > len(p.obj.slots) {
+			st.unsupported("load of %v (%d slots) beyond object %s (%d slots): pointer cast not modelled", t, l.n, p.obj.name, len(p.obj.slots))
+		}
 		copy(a, p.obj.slots[p.off:p.off+l.n])
 		return a
 	}
@@ -683,6 +688,9 @@ func (st *State) store(p Pointer, t types.Type, v Value) {
 		panic(fmt.Sprintf("store agg: len %d want %d (%v)", len(a), l.n, t))
 	}
 	if p.sidx == nil {
+		if p.off+l.n > len(p.obj.slots) {
+			st.unsupported("store of %v beyond object %s: pointer cast not modelled", t, p.obj.name)
+		}
 		for k := 0; k < l.n; k++ {
 			st.setSlot(p.obj, p.off+k, a[k])
 		}
@@ -772,10 +780,10 @@ func (st *State) set(fr *Frame, v ssa.Value, val Value) {
 // ---------- package init ----------
 
 var initSkip = map[string]bool{
-	"runtime": true, "errors": true, "net/netip": false, "os": true, "syscall": true, "net": false, "time": true, "reflect": true,
+	"runtime": true, "errors": true, "net/netip": false, "vendor/golang.org/x/net/http/httpguts": false, "os": true, "syscall": true, "net": false, "time": true, "reflect": true,
 	"sync": true, "sync/atomic": true, "unsafe": true, "fmt": true, "log": true, "io": true, "bufio": true,
 	"unicode": true, "strings": false, "bytes": false, "context": true, "math/rand": true, "math/rand/v2": true,
-	"net/http": true, "encoding/json": true, "crypto/rand": true, "os/signal": true, "io/fs": true, "path/filepath": true,
+	"net/http": false, "encoding/json": true, "crypto/rand": true, "os/signal": true, "io/fs": true, "path/filepath": true,
 	"internal/poll": true, "internal/testlog": true, "internal/godebug": true, "unique": true, "internal/cpu": true,
 	"golang.org/x/sys/unix": true, "golang.org/x/sys/cpu": true, "runtime/debug": true, "internal/bytealg": true,
 	"net/url": false, "mime": true, "mime/multipart": true, "crypto/tls": true, "crypto/x509": true, "html": true,
@@ -1086,7 +1094,11 @@ func (st *State) continueUnwind(g *Goroutine) status {
 			fr.defers = fr.defers[:len(fr.defers)-1]
 			fr.unwinding = true
 			g.panic = &panicState{recovered: true}
-			return st.invoke(g, fr, d.fn, d.args, -1, true)
+			s := st.invoke(g, fr, d.fn, d.args, -1, true)
+			if s == stRetry || s == stYield {
+				fr.defers = append(fr.defers, d)
+			}
+			return s
 		}
 		if fr.fn.Recover != nil {
 			fr.prev = fr.block
@@ -1101,7 +1113,11 @@ func (st *State) continueUnwind(g *Goroutine) status {
 	if len(fr.defers) > 0 {
 		d := fr.defers[len(fr.defers)-1]
 		fr.defers = fr.defers[:len(fr.defers)-1]
-		return st.invoke(g, fr, d.fn, d.args, -1, true)
+		s := st.invoke(g, fr, d.fn, d.args, -1, true)
+		if s == stRetry || s == stYield {
+			fr.defers = append(fr.defers, d)
+		}
+		return s
 	}
 	// pop frame and continue in caller
 	g.frames = g.frames[:len(g.frames)-1]
